@@ -251,7 +251,8 @@ impl PurlShape for PackageType {
         match self {
             PackageType::Cargo | PackageType::Gem | PackageType::Npm | PackageType::Golang => {},
             PackageType::Maven => {
-                if parts.namespace.is_empty() {
+                // A namespace made only of '/' has no segments and is not printed.
+                if parts.namespace.trim_matches('/').is_empty() {
                     return Err(PackageError::MissingRequiredField(PurlField::Namespace));
                 }
             },
